@@ -335,7 +335,7 @@ def PState (d : Data) (lo hi pv b c : Int) : Prop :=
   (∀ k, c ≤ k → k < hi → pv ≤ vi d k)
 
 theorem dupsTail_spec (d : Data) (lo hi pv b c : Int) (hlo : 0 ≤ lo) (hsz : hi ≤ d.size) (hb : lo < b) (hbc : b ≤ c)
-    (hc : c < hi - 1) (hst : PState d lo hi pv b c) :
+    (hc : c ≤ hi - 1) (hst : PState d lo hi pv b c) :
     ∃ d1 c1 n, dupsTail d lo hi c = .ok (d1, c1, n) ∧ RP (lo + 1) hi d d1 ∧ PState d1 lo hi pv b c1 ∧
       c ≤ c1 ∧ c1 ≤ c + 1 := by
   obtain ⟨hpv, hL, hM, hR⟩ := hst
@@ -408,7 +408,7 @@ theorem dupsMid_spec (d : Data) (lo hi pv m b c : Int) (n : Nat) (hlo : 0 ≤ lo
       rw [swap_vi_other hsw (by omega) (by omega)]; exact hR k h1 h2
 
 theorem dupsBlock_spec (d : Data) (lo hi pv m b c : Int) (hlo : 0 ≤ lo) (hsz : hi ≤ d.size) (hm : lo < m)
-    (hmb : m + 1 < b) (hbc : b ≤ c) (hc : c < hi - 1) (hst : PState d lo hi pv b c) :
+    (hmb : m + 1 < b) (hbc : b ≤ c) (hc : c ≤ hi - 1) (hst : PState d lo hi pv b c) :
     ∃ d3 b3 c3 n3, dupsBlock d lo m hi b c = .ok (d3, b3, c3, n3) ∧ RP (lo + 1) hi d d3 ∧
       PState d3 lo hi pv b3 c3 ∧ lo + 1 < b3 + 1 ∧ b3 ≤ c3 ∧ c3 ≤ hi := by
   unfold dupsBlock
@@ -460,48 +460,72 @@ end IntSort
 
 namespace IntSort
 
-theorem ninther_spec (d : Data) (lo hi : Int) (hlo : 0 ≤ lo) (hbig : hi - lo > 12) (hsz : hi ≤ d.size) :
-    ∃ d0, ninther d lo hi ((lo + hi) / 2) = .ok d0 ∧ RP lo hi d d0 := by
+theorem ninther_spec (cf : Cfg) (hD : 3 ≤ cf.nintherDiv) (hM0 : 0 ≤ cf.nintherMul) (hMD : cf.nintherMul < cf.nintherDiv)
+    (d : Data) (lo hi : Int) (hlo : 0 ≤ lo) (hbig : hi - lo ≥ 1) (hsz : hi ≤ d.size) :
+    ∃ d0, ninther cf d lo hi ((lo + hi) / 2) = .ok d0 ∧ RP lo hi d d0 := by
   unfold ninther
-  by_cases h40 : hi - lo > 40
+  by_cases h40 : hi - lo > cf.nintherMin
   · rw [if_pos h40]
     simp only
-    have hs : Int.tdiv (hi - lo) 8 = (hi - lo) / 8 := Int.tdiv_eq_ediv_of_nonneg (by omega)
+    have hs : Int.tdiv (hi - lo) cf.nintherDiv = (hi - lo) / cf.nintherDiv := Int.tdiv_eq_ediv_of_nonneg (by omega)
     rw [hs]
-    obtain ⟨d1, hr1, hrp1⟩ := medianOfThree_rp d lo (lo + (hi - lo) / 8) (lo + 2 * ((hi - lo) / 8)) lo hi
+    -- s = n / D and P = M * s as opaque quantities with the facts needed
+    have hs0 : 0 ≤ (hi - lo) / cf.nintherDiv := Int.ediv_nonneg (by omega) (by omega)
+    have hDs : cf.nintherDiv * ((hi - lo) / cf.nintherDiv) ≤ hi - lo := Int.mul_ediv_self_le (by omega)
+    generalize (hi - lo) / cf.nintherDiv = s at hs0 hDs ⊢
+    have h3s : 3 * s ≤ cf.nintherDiv * s := Int.mul_le_mul_of_nonneg_right hD hs0
+    have hP0 : 0 ≤ cf.nintherMul * s := Int.mul_nonneg hM0 hs0
+    have hP1 : cf.nintherMul * s ≤ (cf.nintherDiv - 1) * s := Int.mul_le_mul_of_nonneg_right (by omega) hs0
+    have hP2 : (cf.nintherDiv - 1) * s = cf.nintherDiv * s - s := by rw [Int.sub_mul, Int.one_mul]
+    generalize cf.nintherMul * s = P at hP0 hP1 ⊢
+    generalize cf.nintherDiv * s = Ds at hDs h3s hP2
+    have hPn : P ≤ hi - lo - 1 := by
+      by_cases hz : s = 0
+      · subst hz; omega
+      · omega
+    obtain ⟨d1, hr1, hrp1⟩ := medianOfThree_rp d lo (lo + s) (lo + P) lo hi
       ⟨by omega, by omega⟩ ⟨by omega, by omega⟩ ⟨by omega, by omega⟩ hlo hsz
     rw [hr1]
     simp only
-    obtain ⟨d2, hr2, hrp2⟩ := medianOfThree_rp d1 ((lo + hi) / 2) ((lo + hi) / 2 - (hi - lo) / 8)
-      ((lo + hi) / 2 + (hi - lo) / 8) lo hi
+    obtain ⟨d2, hr2, hrp2⟩ := medianOfThree_rp d1 ((lo + hi) / 2) ((lo + hi) / 2 - s) ((lo + hi) / 2 + s) lo hi
       ⟨by omega, by omega⟩ ⟨by omega, by omega⟩ ⟨by omega, by omega⟩ hlo (by rw [hrp1.1]; exact hsz)
     rw [hr2]
     simp only
-    obtain ⟨d3, hr3, hrp3⟩ := medianOfThree_rp d2 (hi - 1) (hi - 1 - (hi - lo) / 8)
-      (hi - 1 - 2 * ((hi - lo) / 8)) lo hi
+    obtain ⟨d3, hr3, hrp3⟩ := medianOfThree_rp d2 (hi - 1) (hi - 1 - s) (hi - 1 - P) lo hi
       ⟨by omega, by omega⟩ ⟨by omega, by omega⟩ ⟨by omega, by omega⟩ hlo (by rw [hrp2.1, hrp1.1]; exact hsz)
     exact ⟨d3, hr3, (hrp1.trans hrp2).trans hrp3⟩
   · rw [if_neg h40]
     exact ⟨d, rfl, RP.refl _ _ _⟩
 
-
-theorem dupsStage_spec (d : Data) (lo hi pv b : Int) (hlo : 0 ≤ lo) (hbig : hi - lo > 12) (hsz : hi ≤ d.size)
-    (hb : lo < b) (hbh : b ≤ hi - 1) (hst : PState d lo hi pv b b) :
-    ∃ d3 b3 c3 protect, dupsStage d lo ((lo + hi) / 2) hi b b = .ok (d3, b3, c3, protect) ∧
+theorem dupsStage_spec (cf : Cfg) (hQ : cf.dupsDiv < 0 ∨ 3 ≤ cf.dupsDiv) (d : Data) (lo hi pv b : Int) (hlo : 0 ≤ lo)
+    (hbig : hi - lo ≥ 3) (hsz : hi ≤ d.size) (hb : lo < b) (hbh : b ≤ hi - 1) (hst : PState d lo hi pv b b) :
+    ∃ d3 b3 c3 protect, dupsStage cf d lo ((lo + hi) / 2) hi b b = .ok (d3, b3, c3, protect) ∧
       RP (lo + 1) hi d d3 ∧ PState d3 lo hi pv b3 c3 ∧ lo < b3 ∧ b3 ≤ c3 ∧ c3 ≤ hi := by
   unfold dupsStage
   simp only
-  have hs : Int.tdiv (hi - lo) 4 = (hi - lo) / 4 := Int.tdiv_eq_ediv_of_nonneg (by omega)
+  have hs : Int.tdiv (hi - lo) cf.dupsDiv = (hi - lo) / cf.dupsDiv := Int.tdiv_eq_ediv_of_nonneg (by omega)
   rw [hs]
-  by_cases hcond : ¬ (hi - b < 5) ∧ hi - b < (hi - lo) / 4
-  · have : (!decide (hi - b < 5) && decide (hi - b < (hi - lo) / 4)) = true := by
+  by_cases hcond : ¬ (hi - b < cf.protectMin) ∧ hi - b < (hi - lo) / cf.dupsDiv
+  · have : (!decide (hi - b < cf.protectMin) && decide (hi - b < (hi - lo) / cf.dupsDiv)) = true := by
       simp [hcond.1, hcond.2]
     rw [if_pos this]
+    -- the divisor is ≥ 3 here: with a negative divisor the quotient is ≤ 0 < hi - b
+    have hQ3 : 3 ≤ cf.dupsDiv := by
+      rcases hQ with h | h
+      · have := Int.ediv_nonpos_of_nonneg_of_nonpos (a := hi - lo) (b := cf.dupsDiv) (by omega) (by omega)
+        omega
+      · exact h
+    have hq0 : 0 ≤ (hi - lo) / cf.dupsDiv := Int.ediv_nonneg (by omega) (by omega)
+    have hQq : cf.dupsDiv * ((hi - lo) / cf.dupsDiv) ≤ hi - lo := Int.mul_ediv_self_le (by omega)
+    have hlt := hcond.2
+    generalize (hi - lo) / cf.dupsDiv = q at hq0 hQq hlt
+    have h3q : 3 * q ≤ cf.dupsDiv * q := Int.mul_le_mul_of_nonneg_right hQ3 hq0
+    generalize cf.dupsDiv * q = Qq at hQq h3q
     obtain ⟨d3, b3, c3, n3, hr, hrp, hst3, h1, h2, h3⟩ := dupsBlock_spec d lo hi pv ((lo + hi) / 2) b b hlo hsz
       (by omega) (by omega) (Int.le_refl _) (by omega) hst
     rw [hr]
     exact ⟨d3, b3, c3, _, rfl, hrp, hst3, by omega, h2, h3⟩
-  · have : ¬ ((!decide (hi - b < 5) && decide (hi - b < (hi - lo) / 4)) = true) := by
+  · have : ¬ ((!decide (hi - b < cf.protectMin) && decide (hi - b < (hi - lo) / cf.dupsDiv)) = true) := by
       intro h
       simp at h
       exact hcond ⟨by omega, h.2⟩
@@ -527,12 +551,14 @@ theorem protectStage_spec (d : Data) (lo hi pv a b c : Int) (protect : Bool) (hl
       rw [hrp.2.1 k (Or.inr (by omega))]; exact hR k hk1 hk2
 
 /-- the contract of `doPivot` that `quickSort` relies on -/
-theorem doPivot_spec (d : Data) (lo hi : Int) (hlo : 0 ≤ lo) (hbig : hi - lo > 12) (hsz : hi ≤ d.size) :
-    PivotOK d lo hi := by
+theorem doPivot_spec (cf : Cfg) (hps : cf.pivotShift = 1) (hD : 3 ≤ cf.nintherDiv) (hM0 : 0 ≤ cf.nintherMul)
+    (hMD : cf.nintherMul < cf.nintherDiv) (hQ : cf.dupsDiv < 0 ∨ 3 ≤ cf.dupsDiv)
+    (d : Data) (lo hi : Int) (hlo : 0 ≤ lo) (hbig : hi - lo ≥ 3) (hsz : hi ≤ d.size) :
+    PivotOK cf d lo hi := by
   unfold PivotOK doPivot
   rw [if_neg (by omega)]
-  simp only
-  obtain ⟨d0, hr0, hrp0⟩ := ninther_spec d lo hi hlo hbig hsz
+  simp only [hps, Int.pow_succ, Int.pow_zero, Int.one_mul]
+  obtain ⟨d0, hr0, hrp0⟩ := ninther_spec cf hD hM0 hMD d lo hi hlo (by omega) hsz
   rw [hr0]
   simp only
   have hsz0 : hi ≤ d0.size := by rw [hrp0.1]; exact hsz
@@ -554,7 +580,7 @@ theorem doPivot_spec (d : Data) (lo hi : Int) (hlo : 0 ≤ lo) (hbig : hi - lo >
   rw [hrb]
   simp only
   have hsz2 : hi ≤ d2.size := by rw [hrp2.1]; exact hsz1
-  obtain ⟨d3, b3, c3, protect, hr3, hrp3, hst3, c1, c2, c3'⟩ := dupsStage_spec d2 lo hi (vi d1 lo) b hlo hbig hsz2
+  obtain ⟨d3, b3, c3, protect, hr3, hrp3, hst3, c1, c2, c3'⟩ := dupsStage_spec cf hQ d2 lo hi (vi d1 lo) b hlo hbig hsz2
     (by omega) b2 ⟨bpv, bL, fun k h1 h2 => by omega, bR⟩
   rw [hr3]
   simp only
@@ -576,10 +602,13 @@ end IntSort
 
 namespace IntSort
 
-/-- `Sort(a)`: never panics, never runs out of the fuel given to its loops, and leaves the slice sorted and a
-permutation of its old content -/
-theorem sort_full (d : Data) : ∃ d', sort d = .ok d' ∧ d'.toList.Pairwise (· ≤ ·) ∧ d'.toList.Perm d.toList :=
-  sort_spec doPivot_spec d
+/-- `Sort(a)` under every admissible configuration: never panics, never runs out of the fuel given to its loops,
+and leaves the slice sorted and a permutation of its old content -/
+theorem sort_full (cf : Cfg) (h : cf.Admissible) (d : Data) :
+    ∃ d', sort cf d = .ok d' ∧ d'.toList.Pairwise (· ≤ ·) ∧ d'.toList.Perm d.toList := by
+  obtain ⟨hT, hK, hG, hps, hD, hM0, hMD, hQ, hm, ha, hsb, hbo, hS⟩ := h
+  exact sort_spec cf ⟨hm, ha, hsb⟩ hbo hK hG hS
+    (fun d lo hi h0 hbig hsz => doPivot_spec cf hps hD hM0 hMD hQ d lo hi h0 (by omega) hsz) d
 
 end IntSort
 
